@@ -148,6 +148,11 @@ def check_requests(ctx):
         rcall = next(c for c in R.calls if call_name(c) == "self._get_queue_for_system")
         ok = [norm(a) for a in rcall.args] == [idvar]
         ctx.ob("C06.P1", q, ok, "the queue is registered under the request's own system bytes" if ok else f"`{norm(rcall)}` does not register {idvar}", key="register-id", where=f.where)
+        from .c09 import local_names, possibly_undefined
+
+        unbound = [(v, bad[0].text()) for v in sorted(local_names(fn)) if v != "_" for bad in [possibly_undefined(cfg, fn, v)] if bad]
+        ctx.ob("C06.P1", q, not unbound, "system bytes, queue and message are computed before they are used" if not unbound else
+               f"local `{unbound[0][0]}` is read at `{unbound[0][1]}` before it is assigned: the request fails with UnboundLocalError before (or after) it is on the wire", key="definitely-assigned", where=f.where)
         ok = cfg.dominates(R, snd)
         ctx.ob("C06.P1", q, ok, "the response queue is registered before the request is sent" if ok else
                "the request can be on the wire before its response queue is registered: a fast reply finds no waiter, is handed to message_received, and the caller times out",
